@@ -84,9 +84,15 @@ static void ideal(struct seq *s, int op, long idx, uint8_t val, struct res *r) {
     r->ok = 0; r->has = 0; r->val = 0; r->alen = -1;
     long p;
     switch (op) {
-    case OP_ADDLAST: seq_ins(s, s->n, val); r->ok = 1; break;
-    case OP_ADDFIRST: seq_ins(s, 0, val); r->ok = 1; break;
+#ifdef VF_MAXSZ
+#define FULL(s) ((s)->n >= VF_MAXSZ)   /* bounded list: additions beyond the limit are refused (ENOBUFS) */
+#else
+#define FULL(s) 0
+#endif
+    case OP_ADDLAST: if (!FULL(s)) { seq_ins(s, s->n, val); r->ok = 1; } break;
+    case OP_ADDFIRST: if (!FULL(s)) { seq_ins(s, 0, val); r->ok = 1; } break;
     case OP_ADDAT:
+        if (FULL(s)) break;
 #if VF_CONT == 1
         p = norm(idx, s->n);
 #else
@@ -248,6 +254,9 @@ void vf_harness(void) {
     }
 #if VF_CONT != 1
     VF_ASSUME(vfin.val1 != 0 && vfin.val2 != 0 && vfin.val3 != 0);
+#ifdef VF_MAXSZ
+    c->setsize(c, VF_MAXSZ);
+#endif
 #endif
     g_c = c;
     struct res r1;
